@@ -6,10 +6,12 @@ and the switches disagree the step-level validation reports model drift."""
 FIX = {"FixWake": True, "FixAttach": True, "FixCount": True, "FixJoin": True}
 
 PKTS = {"SKN": ["sps", "key", "non"], "KN": ["key", "non"], "K": ["key"], "SPKNK": ["sps", "pps", "key", "non", "key"],
-        "KAN": ["key", "aud", "non"], "KNKN": ["key", "non", "key", "non"], "KNNKNNK": ["key", "non", "non", "key", "non", "non", "key"]}
+        "KAN": ["key", "aud", "non"], "KNKN": ["key", "non", "key", "non"], "KNNKNNK": ["key", "non", "non", "key", "non", "non", "key"],
+        "VSPKN": ["vps", "sps", "pps", "key", "non"], "MVAKN": ["meta", "vsh", "ash", "key", "non"],
+        "MVKAK": ["meta", "vsh", "key", "aud", "key"], "VKNA": ["vsh", "key", "non", "aud"], "VKK": ["vsh", "key", "key"]}
 
-def S(name, cons, pkts, cachegop=True, maxq=1000, stoppers=(), closer=False, panics=()):
-    return {"name": name, "cons": list(cons), "pkts_name": pkts, "pkts": PKTS[pkts], "cachegop": cachegop, "maxq": maxq,
+def S(name, cons, pkts, cachegop=True, maxq=1000, stoppers=(), closer=False, panics=(), media="h264", closepanics=False, replace=False, simonly=False):
+    return {"name": name, "media": media, "closepanics": closepanics, "replace": replace, "simonly": simonly, "cons": list(cons), "pkts_name": pkts, "pkts": PKTS[pkts], "cachegop": cachegop, "maxq": maxq,
             "stoppers": list(stoppers), "closer": closer, "panics": list(panics)}
 
 SCENARIOS = {s["name"]: s for s in [
@@ -22,6 +24,20 @@ SCENARIOS = {s["name"]: s for s in [
     S("stopclose1", ["c1"], "K", stoppers=["c1"], closer=True),
     S("panic2", ["c1", "c2"], "KN", panics=["c1"]),
     S("backlog1", ["c1"], "KNNKNNK", maxq=1),
+    S("hevc1", ["c1"], "VSPKN", media="h265"),
+    S("hevc2", ["c1", "c2"], "KN", media="h265"),
+    S("flv1", ["c1"], "MVAKN", media="flv"),
+    S("flvaud1", ["c1"], "MVKAK", media="flv"),
+    S("flv2", ["c1", "c2"], "VKNA", media="flv"),
+    S("flvclose2", ["c1", "c2"], "K", media="flv", closer=True),
+    S("flvnocache1", ["c1"], "MVAKN", media="flv", cachegop=False),
+    S("flvstamp2", ["c1", "c2"], "VKK", media="flv"),
+    S("stop3", ["c1", "c2", "c3"], "KNKN", stoppers=["c1"], simonly=True),
+    S("backlogclose1", ["c1"], "KNNKNNK", maxq=1, closer=True),
+    S("backlogstop1", ["c1"], "KNNKNNK", maxq=1, stoppers=["c1"]),
+    S("backlog2", ["c1", "c2"], "KNNKNNK", maxq=1, simonly=True),
+    S("panicclose2", ["c1", "c2"], "KN", panics=["c1"], closepanics=True),
+    S("replace2", ["c1", "c2"], "K", closer=True, replace=True),
 ]}
 
 def tla_set(xs):
@@ -33,24 +49,27 @@ def cfg(sc, mode, fix=None, invariants=(), emit="none", steps=False):
     if fix:
         f.update(fix)
     lines = ["CONSTANTS",
+             ' Media = "%s"' % sc["media"],
              " Cons = %s" % tla_set(sc["cons"]),
              " Pkts <- Pkts%s" % sc["pkts_name"],
              " CacheGop = %s" % ("TRUE" if sc["cachegop"] else "FALSE"),
              " MaxQ = %d" % sc["maxq"],
              " Stoppers = %s" % tla_set(sc["stoppers"]),
              " WithCloser = %s" % ("TRUE" if sc["closer"] else "FALSE"),
-             " Panics = %s" % tla_set(sc["panics"])]
+             " Panics = %s" % tla_set(sc["panics"]),
+             " ClosePanics = %s" % ("TRUE" if sc.get("closepanics") else "FALSE")]
     for k in ("FixWake", "FixAttach", "FixCount", "FixJoin"):
         lines.append(" %s = %s" % (k, "TRUE" if f[k] else "FALSE"))
+    lines.append(" Replace = %s" % ("TRUE" if sc.get("replace") else "FALSE"))
     lines.append(" ReplayVideoOnly = TRUE")
     lines.append(' EmitMode = "%s"' % emit)
     if steps:
         lines += ["INIT StepsInit", "NEXT StepsNext", "VIEW StepsView"]
     else:
-        lines += ["INIT Init", "NEXT Next", "VIEW View"]
+        lines += ["INIT %s" % ("InitR" if emit == "racy1" else "Init"), "NEXT Next", "VIEW View"]
         if invariants:
             lines.append("INVARIANTS " + " ".join(invariants))
-        if emit == "edges":
+        if emit in ("edges", "racy", "racy1"):
             lines.append("ACTION_CONSTRAINT EmitEdge")
         if emit == "final":
             lines.append("INVARIANTS EmitFinal")
